@@ -524,7 +524,9 @@ def unit_typed(unit):
                         for c in res._underlying:
                             check_col(agg, f"join.{meth}", c, case)
     elif what == "agg":
-        vals_menu = [[1, 2, 3], [None, 2, 3], [None, None, 3], [0.5, None, 1.5], [None, 1.5, None], [1, None, None]]
+        vals_menu = [[1, 2, 3], [None, 2, 3], [None, None, 3], [0.5, None, 1.5], [None, 1.5, None], [1, None, None],
+                     # kinds whose mean is not a float: the result columns are typed by their own values
+                     [1j, 2 + 0j, 3j], [Fraction(1, 2), Fraction(1, 3), None], [Decimal("1.5"), Decimal("2.5"), Decimal("3")], [True, False, True]]
         keys_menu = [["a", "a", "b"], ["a", "b", "b"], ["a", "b", "c"], ["a", "b", "a"]]
         for vals in vals_menu:
             for keys in keys_menu:
@@ -535,10 +537,15 @@ def unit_typed(unit):
                     continue
                 for meth in ("aggregate", "window"):
                     case = {"part": meth, "keys": keys, "values": vals}
+                    kw = dict(sum_over="v", mean_over="v", min_over="v", max_over="v", count_over="v", stdev_over="v")
+                    if any(isinstance(x, (complex, Fraction, Decimal)) for x in vals):
+                        kw = dict(sum_over="v", mean_over="v", count_over="v")        # no order / no sqrt for these in Python itself
                     try:
-                        res = getattr(t, meth)(over="k", sum_over="v", mean_over="v", min_over="v", max_over="v",
-                                               count_over="v", stdev_over="v")
+                        res = getattr(t, meth)(over="k", **kw)
                     except Exception as e:
+                        if any(isinstance(x, (complex, Fraction, Decimal)) for x in vals):
+                            agg.skipped["aggregate-of-uncommon-number-kind-refused"] += 1
+                            continue
                         agg.violation(V(f"{meth}", "raises-" + type(e).__name__, case))
                         continue
                     agg.evals += 1
